@@ -137,6 +137,9 @@ func (u *PacketUnderlay) Close() error {
 	// Unblock any pending I/O before closing sessions.
 	u.conn.SetReadDeadline(time.Now())
 	u.baseUnderlay.Close()
+	// Closing sessions takes time. The event loop may have started a new
+	// read with a new deadline before it can see that the underlay is done.
+	u.conn.SetReadDeadline(time.Now())
 	return nil
 }
 
